@@ -33,7 +33,7 @@ def _main(req, out):
             ev, nt, fails = fn([conv(req['replay'])])
             json.dump({'failures': fails, 'evaluations': ev}, out, default=repr)
             return
-        res = mod.run(REG, req.get('tier', 'quick'), int(req.get('seed', 0)), req.get('jobs', 16))
+        res = getattr(mod, req.get('fn') or 'run')(REG, req.get('tier', 'quick'), int(req.get('seed', 0)), req.get('jobs', 16))
         json.dump(res, out, default=repr)
 
 
